@@ -56,8 +56,13 @@ def generate(seed, tier):
                       'route': rng.choice(['relay', 'relay', 'response']), 'mine_pool': rng.random() < 0.5})
             ops.append(m)
         elif x < 0.95:
+            if rng.random() < 0.4:
+                # ... with a winning answer of the miner waiting to be handled at that very moment
+                ops.append({'op': 'miner_step', 'm': rng.randrange(miners)})
+                ops.append({'op': 'miner_step', 'm': rng.randrange(miners)})
             ops.append({'op': 'relay_invalid_block', 'kind': rng.choice(['reward_plus_one', 'sig_other_key', 'ts_equal_parent', 'ev_sample']),
-                        'a': rng.randrange(1000), 'b': rng.randrange(1000), 'peer': rng.randrange(3)})
+                        'a': rng.randrange(1000), 'b': rng.randrange(1000), 'peer': rng.randrange(3),
+                        'found_during_validation': rng.random() < 0.5})
         elif x < 0.975:
             # the networking thread is half-way through disconnecting a peer (socket unregistered, peer still listed) while the
             # miner thread goes on: a found block is broadcast in that window
@@ -473,8 +478,22 @@ def execute(script):
                     c = w.conn(op.get('peer', 0))
                     if c is not None:
                         ids_before = set(w.cm.coinstate.block_by_hash.keys())
-                        c.send(M.DataMessage(M.DATA_BLOCK, made[0]))
-                        w.settle(2500)
+                        import skepticoin.networking.remote_peer as rp_
+                        orig_v_ = rp_.validate_block_in_coinstate
+                        if op.get('found_during_validation'):
+                            # the miner's winning answer is handled (on the miner's thread) while the networking thread is inside
+                            # the slow validation of this block - which then fails
+                            def racing_validate(block_, coinstate_):
+                                if not watcher.recv_queue.empty() and not stop['now']:
+                                    res.bump('probe:miner_answer_handled_during_validation')
+                                    watcher_step()
+                                return orig_v_(block_, coinstate_)
+                            rp_.validate_block_in_coinstate = racing_validate
+                        try:
+                            c.send(M.DataMessage(M.DATA_BLOCK, made[0]))
+                            w.settle(2500)
+                        finally:
+                            rp_.validate_block_in_coinstate = orig_v_
                         res.bump('invalid_blocks_relayed')
                         if ids_before - set(w.cm.coinstate.block_by_hash.keys()):
                             stop['rollback_seen'] = True
